@@ -244,7 +244,10 @@ fn port_out(e: &mut Emu, port: u16, v: u8) -> Result<(), String> {
 }
 
 pub fn load(e: &mut Emu, enc: Enc, file: Vec<u8>) -> Result<(), String> {
-    let a = MemAsset::new(file);
+    // the file arrives all at once or in short reads (chosen by the file's own bytes, so that every
+    // phase meets every delivery): what is loaded must not depend on it
+    let chunk = [0usize, 0, 1, 7, 100, 4096][(fnv(&file) % 6) as usize];
+    let a = MemAsset::chunked(file, chunk);
     match enc {
         Enc::Sna => e.load_snapshot(Snapshot::Sna(a)),
         _ => e.load_snapshot(Snapshot::Szx(a)),
@@ -1023,6 +1026,7 @@ pub fn replay(run: &mut Run, phase: &str, case: &serde_json::Value) -> Result<()
 pub const LEVEL: &str = "exploration";
 pub const RULE: &str = "abstract machine states (registers, IFF1/IFF2, IM, HALTED, EILAST, MEMPTR, frame cycle counter, border, 128K latch incl. lock and shadow screen, RAM pattern + sparse edits, AY registers + selected register, mouse presence) are encoded by the harness' own writers as SNA, SZX with stored pages, SZX with zlib pages, and 'fancy' SZX (permuted chunk order, unknown and zero-length chunks, lower-case ids, mixed compression, reversed page order) and loaded into receivers in prior states {fresh, dirty after a scrambling program, halted, mid FD-chain, paging locked, EI pending}. Phases: (1) direct comparison of registers, every RAM page, CPU view, latch+lock, border, frame clock, MEMPTR, then 12 instructions in lock-step with the reference machine started from the described state (EILAST / interrupt arrival), or for HALTED: PC never leaves the HALT; (2) AY read-back through the ports and the audible tone (zero-crossing frequency of the 12 frames after loading), mouse presence; (3) the four encodings of one state, loaded into fresh and dirty receivers and run for 1..4 frames, must give identical state hashes; (4) 48K file into 128K machine and vice versa: Err, or Ok with the CPU seeing exactly the file's RAM, never a panic; (5) SCR. non-trivial = file using a compressed page, permuted order, unknown chunk, HALTED, EILAST, lock bit, shadow screen or a non-fresh receiver; distinct = hash of the case ay-envelope-restarts-on-load: a SZX that puts all AY channels on a one-shot envelope is loaded into a fresh machine and into a machine that loaded the same file 41 frames earlier (envelope run out, silent): the peak level of the six frames after the load must be comparable (>= 50 %) — the file's R13 starts its envelope whatever the receiver held.";
 pub const ASSUMPTIONS: &[&str] = &[
+    "every file is delivered either all at once or in short reads of 1/7/100/4096 bytes (chosen by a hash of the file), in every phase",
     "only files a conforming reader must accept are generated (malformed input is C15's domain): IM 0..2, border 0..7 with chFe low bits equal to it, cycle counter below the frame length, 16384-byte pages valid for the model, one Z80R and one SPCR chunk, HALTED and EILAST never both set",
     "HALTED + PC is judged convention-independently (HALT bytes on both candidate addresses); chKeyboardJoystick is not judged",
     "a SNA does not carry the frame position, so SNA-loaded machines are compared for behaviour only from fresh receivers",
